@@ -87,6 +87,10 @@ pub enum SvcEv {
     PollReady(usize, Ready),
     Call(usize),
     NewService(usize, usize), // (instance, listener)
+    /// the worker future is polled (a wake-up begins)
+    PollBegin,
+    /// the readiness script of this instance changed
+    Flip(usize),
 }
 
 pub struct Shared {
@@ -111,6 +115,8 @@ pub struct Shared {
     pub expect_removed: Cell<Option<usize>>,
     /// reference rotation cursor (position in the handle list) and the list it refers to: the
     /// cursor moves only inside accept_one (one step per skipped or served handle)
+    /// the run is in its drain phase (scripts no longer misbehave by themselves)
+    pub draining: Cell<bool>,
     pub rr_cursor: Cell<Option<usize>>,
     pub rr_handles: RefCell<Vec<usize>>,
     pub drain_windows: Cell<u64>,
@@ -183,6 +189,7 @@ impl Shared {
             cur_conn: Cell::new(None),
             cur_paused: Cell::new(false),
             expect_removed: Cell::new(None),
+            draining: Cell::new(false),
             rr_cursor: Cell::new(None),
             rr_handles: RefCell::new(Vec::new()),
             drain_windows: Cell::new(0),
@@ -604,6 +611,18 @@ impl<S: PeerKey> Future for FactFut<S> {
         }
         let sh = shared();
         let slot = sh.current_slot.get().expect("service created outside a worker context");
+        if sh.cfg.factory_fails_on_restart && !sh.draining.get() {
+            // re-creation of a failed service (this worker already built one for the listener)
+            let again = sh.instances.borrow().iter().any(|i| i.slot == slot && i.listener == self.listener);
+            if again {
+                let l = self.listener;
+                sh.ctx(|ctx| {
+                    ev!(ctx, "factory of l{l} fails to re-create its service on slot {slot}");
+                    ctx.bump("fault.factory_fails_on_restart");
+                });
+                return Poll::Ready(Err(()));
+            }
+        }
         let inst = {
             let mut is = sh.instances.borrow_mut();
             is.push(Instance {
@@ -784,6 +803,18 @@ impl<S: PeerKey> Service<S> for HService<S> {
                 ctx.bump("fault.panic_in_call");
             });
             panic!("verif: injected service panic");
+        }
+        if sh.cfg.busy_after_call && sh.cfg.scripts && !sh.draining.get() {
+            // a service that is not ready again right after it took a connection (back-pressure)
+            let mut is = sh.instances.borrow_mut();
+            if !is[i].failed && is[i].ready == Ready::Ok {
+                is[i].ready = Ready::Pending;
+                sh.svc_log.borrow_mut()[slot].push(SvcEv::Flip(i));
+                sh.ctx(|ctx| {
+                    ev!(ctx, "i{i} is busy after the call (readiness -> Pending)");
+                    ctx.bump("probe.busy_after_call");
+                });
+            }
         }
         let gate = Rc::new(Gate { open: Cell::new(false), waker: RefCell::new(None) });
         sh.conns.borrow_mut()[c].gate = Some(gate.clone());
